@@ -3,6 +3,7 @@ package checks
 import (
 	"fmt"
 	"strings"
+	"unicode"
 	"unicode/utf8"
 
 	"github.com/influxdata/influxql"
@@ -253,7 +254,7 @@ var c06alphabet = []string{"'", `"`, `\`, "n", "\n", "\r", "\x00", " ", ".", "/"
 
 func checkC06(c *Ctx) (string, bool, []string) {
 	r := c.R
-	rule := "every Unicode scalar value as a one-rune string and embedded as a<r>b through QuoteString/QuoteIdent/IdentNeedsQuotes vs the scanner; all strings of length <=3 (<=4 thorough) over a 19-symbol hostile alphabet through helpers and 14 statement slots; all keywords in 3 casings; multi-part names; random strings to length 64; values of 14 to 8194 characters at and around powers of two (bare-identifier characters only, with one hostile character, runs of quotes, backslashes and multi-byte characters). Non-trivial = string needs escaping or quoting, or is inexpressible; distinct by (slot, string)."
+	rule := "names that differ from an ASCII name only by a letter whose case-folded form is ASCII (KELVIN SIGN, LONG S, dotted / dotless I), classified in both orders before anything else; every Unicode scalar value as a one-rune string and embedded as a<r>b through QuoteString/QuoteIdent/IdentNeedsQuotes vs the scanner; all strings of length <=3 (<=4 thorough) over a 19-symbol hostile alphabet through helpers and 14 statement slots; all keywords in 3 casings; multi-part names; random strings to length 64; values of 14 to 8194 characters at and around powers of two (bare-identifier characters only, with one hostile character, runs of quotes, backslashes and multi-byte characters). Non-trivial = string needs escaping or quoting, or is inexpressible; distinct by (slot, string)."
 	assume := []string{"expressible = valid UTF-8 without NUL or CR", "for inexpressible values a parse error or any single literal in the slot is acceptable"}
 	if c.Replay != nil {
 		local := map[string]int64{}
@@ -272,6 +273,37 @@ func checkC06(c *Ctx) (string, bool, []string) {
 			}
 		}
 		return rule, false, assume
+	}
+	// 0. look-alikes under case folding, in both call orders and before anything
+	// else has been classified in this process: a non-ASCII letter whose upper-
+	// or lower-case form is an ASCII letter (KELVIN SIGN, LONG S, dotted and
+	// dotless I) next to the ASCII spelling of the same name
+	{
+		local := map[string]int64{}
+		for cp := rune(0x80); cp <= 0x1FFFF; cp++ {
+			var eq []string
+			for _, t := range []string{strings.ToLower(string(cp)), strings.ToUpper(string(cp)), string(unicode.SimpleFold(cp)), string(unicode.SimpleFold(unicode.SimpleFold(cp)))} {
+				if len(t) == 1 && (t[0] >= 'a' && t[0] <= 'z' || t[0] >= 'A' && t[0] <= 'Z') {
+					eq = append(eq, t, strings.ToLower(t), strings.ToUpper(t))
+				}
+			}
+			for i, e := range eq {
+				r := string(cp)
+				for _, ord := range [][2]string{{e, r}, {r, e}} {
+					pre := fmt.Sprintf("q%d%c", i, 'a'+len(local)%26)
+					if ord[0] == r {
+						pre = "r" + pre
+					}
+					for _, v := range ord {
+						c06Helpers(c, pre+v+"z", local)
+						c06Helpers(c, pre+v, local)
+						c06Template(c, c06slots[int(cp)%len(c06slots)], pre+v+"z", local)
+					}
+				}
+				local["case-fold-look-alikes"]++
+			}
+		}
+		r.MergeCounts(local)
 	}
 	// 1. every Unicode scalar
 	const chunk = 4096
